@@ -2398,7 +2398,13 @@ def run_c14(ctx) -> Corr:
                 "sessions leave behind) with truncated / undecodable / deeply nested / wrong-shape / empty / valid content "
                 "or a directory in their place stand next to a missing / empty / valid / damaged persistence file, loaded "
                 "through Persistence.load and through Gateway.__aenter__ (one sibling: every name x content; several at "
-                "once: random); "
+                "once: random); histories of a whole process (persist_loops.py): several Persistence / Gateway objects on one "
+                "or two shared paths, one operation (save / load / entering / leaving a gateway context) held at each of its "
+                "file operations (before it starts / after it took effect) while loads, enters and saves of OTHER objects on "
+                "the same path are started, the same contention repeated under two to four successive event loops of this "
+                "process (asyncio.run each), quiet loops before / between, objects created per loop or once per process, "
+                "every load judged (holder, contender, later quiet ones; loads with nothing else in flight also compared "
+                "with the model on the bytes the file held); "
                 "oracle = the outcome is success or PersistenceReadError, a missing file is created holding the current "
                 "registry, an empty file gives an empty registry; model compared on outcome, the class raised inside, and "
                 "the registry of successful loads, both with the file state classified by the harness (real json.loads) "
@@ -2535,6 +2541,11 @@ def run_c14(ctx) -> Corr:
                       f"sessions on this tree: {sorted(left) or 'none'}")
 
     batch = Batch()
+    # the same loads in a process with a past: several Persistence / Gateway objects on one path, loads overlapping saves,
+    # repeated under several event loops of this process (persist_loops.py)
+    from . import persist_loops
+
+    loop_pending = persist_loops.loop_checks(ctx, corr, batch, base_texts[0])
     handles = []
     byte_handles = []
     for (label, data, cur), (out, before) in zip(files, results):
@@ -2640,6 +2651,7 @@ def run_c14(ctx) -> Corr:
         return corr
     check_boolean_tables(corr)
     batch.run()
+    persist_loops.loop_compare(corr, batch, loop_pending)
     for c, (h, state) in zip(dir_cases, dir_handles):
         if h is None:
             continue
